@@ -1,5 +1,6 @@
 From Coq Require Import List NArith ZArith Permutation Relations.
 From SK Require Import lib.LGraph lib.StrJoin model.C08_Model proof.C08_Spec proof.C08_Faithful proof.C08_Nauty proof.C08_SigFun proof.C08_Sound proof.C08_Invariant proof.C08_Value proof.C08_GraphSig proof.C08_Auts proof.C08_GenIdem proof.C08_Select proof.C08_Orbits.
+From SK Require Import model.C08_Digraph proof.C08_DSpec proof.C08_DSer proof.C08_DNauty proof.C08_DInvariant proof.C08_MaxDepth proof.C08_DValue.
 Import ListNotations.
 
 (** 1. Faithfulness: the canonical graph is the input relabelled by a map that is injective on its nodes;
@@ -243,3 +244,131 @@ Theorem C08_nauty_orbits : forall g : graph, NoDup (node_ids g) ->
      exists c, In c (nauty_orbits g) /\ In x c /\ In y c).
 Proof. exact nauty_orbits_spec. Qed.
 Print Assumptions C08_nauty_orbits.
+
+(** 13. Directed inputs (round 5).  GraphCanonicaliser documents that the class of the input is preserved, and
+        _serialise has a branch for directed graphs; a networkx.DiGraph is modelled by the same [lgraph] with the edge list
+        read as the list of ARCS u -> v (model/C08_Digraph.v).  Theorems 1 and 2 for the attribute-sort and wl / morgan
+        back-ends already cover digraphs: [canon_generic] / [canon_rank] are the model of both cases ([degree] = in-degree +
+        out-degree = DiGraph.degree) and [gedges (canon ...) = gedges (relabel f g)] keeps the direction of every arc.
+        What differs is the serialisation ([dserialise]: end points printed as stored; sort key (_edge_key, (u, v)) after
+        repair R5a) and the exact back-end ([dsigN]: successors only; [dnlabel]: both triangles of the matrix after repair R5b).
+        [dwf] = distinct node ids, arcs join two distinct nodes of the graph, at most one arc per ORDERED pair;
+        [dgeq_cov] = same covered node set and same covered ARC set; [diso_cov] = isomorphic AS DIGRAPHS. *)
+Theorem C08_digraph_faithful_nauty : forall g : graph, NoDup (node_ids g) ->
+  exists f, inj_on f (node_ids g) /\ Permutation (gnodes (dcanon_nauty g)) (gnodes (relabel f g))
+            /\ gedges (dcanon_nauty g) = gedges (relabel f g).
+Proof. exact faithful_dnauty. Qed.
+Print Assumptions C08_digraph_faithful_nauty.
+
+Theorem C08_digraph_onto_1N_nauty : forall g : graph, NoDup (node_ids g) ->
+  Permutation (node_ids (dcanon_nauty g)) (map N.of_nat (seq 1 (length (gnodes g)))).
+Proof. exact onto_dnauty. Qed.
+Print Assumptions C08_digraph_onto_1N_nauty.
+
+(** the signature of a digraph is a function of the digraph: insertion order of nodes and arcs and uncovered attributes
+    do not matter (before repair R5a false for the exact back-end: antiparallel arcs with equal attributes tied in the
+    sort key and were printed in insertion order) *)
+Theorem C08_digraph_signature_function_generic : forall (D : Type) (digest : str -> D) (g h : graph),
+  dwf g -> dwf h -> dgeq_cov g h ->
+  digest (dserialise (canon_generic g)) = digest (dserialise (canon_generic h)).
+Proof. exact dsignature_function_generic. Qed.
+Print Assumptions C08_digraph_signature_function_generic.
+
+Theorem C08_digraph_signature_function_wl_morgan : forall (D : Type) (digest : str -> D) (ranks : list (N * Z)) (g h : graph),
+  dwf g -> dwf h -> dgeq_cov g h ->
+  digest (dserialise (canon_rank ranks g)) = digest (dserialise (canon_rank ranks h)).
+Proof. exact dsignature_function_rank. Qed.
+Print Assumptions C08_digraph_signature_function_wl_morgan.
+
+(** equal signatures make two digraphs isomorphic as digraphs - the direction of every arc is covered (seeded change
+    C08-w3-2 printed the end points smallest first: u -> v and v -> u got one signature) *)
+Theorem C08_digraph_signature_sound_generic : forall (D : Type) (digest : str -> D) (g h : graph),
+  dwf g -> dwf h -> els_ok g -> els_ok h ->
+  (digest (dserialise (canon_generic g)) = digest (dserialise (canon_generic h)) ->
+   dserialise (canon_generic g) = dserialise (canon_generic h)) ->
+  digest (dserialise (canon_generic g)) = digest (dserialise (canon_generic h)) ->
+  exists f, inj_on f (node_ids g) /\ dgeq_cov (relabel f g) h.
+Proof. exact dsignature_sound_generic. Qed.
+Print Assumptions C08_digraph_signature_sound_generic.
+
+Theorem C08_digraph_signature_sound_wl_morgan : forall (D : Type) (digest : str -> D) (r r' : list (N * Z)) (g h : graph),
+  dwf g -> dwf h -> els_ok g -> els_ok h ->
+  (digest (dserialise (canon_rank r g)) = digest (dserialise (canon_rank r' h)) ->
+   dserialise (canon_rank r g) = dserialise (canon_rank r' h)) ->
+  digest (dserialise (canon_rank r g)) = digest (dserialise (canon_rank r' h)) ->
+  exists f, inj_on f (node_ids g) /\ dgeq_cov (relabel f g) h.
+Proof. exact dsignature_sound_rank. Qed.
+Print Assumptions C08_digraph_signature_sound_wl_morgan.
+
+Theorem C08_digraph_signature_sound_nauty : forall (D : Type) (digest : str -> D) (g h : graph),
+  dwf g -> dwf h -> els_ok g -> els_ok h ->
+  (digest (dserialise (dcanon_nauty g)) = digest (dserialise (dcanon_nauty h)) ->
+   dserialise (dcanon_nauty g) = dserialise (dcanon_nauty h)) ->
+  digest (dserialise (dcanon_nauty g)) = digest (dserialise (dcanon_nauty h)) ->
+  exists f, inj_on f (node_ids g) /\ dgeq_cov (relabel f g) h.
+Proof. exact dsignature_sound_nauty. Qed.
+Print Assumptions C08_digraph_signature_sound_nauty.
+
+(** the exact back-end is invariant on digraphs: isomorphic digraphs, however numbered and inserted, get the same
+    canonical digraph and the same signature (before repair R5b false: the label read only the arcs p_i -> p_j with
+    i < j, two leaves with equal labels could give different canonical digraphs) *)
+Theorem C08_digraph_nauty_invariant : forall (D : Type) (digest : str -> D) (g h : graph),
+  dwf g -> dwf h -> els_ok g ->
+  (exists f, inj_on f (node_ids g) /\ dgeq_cov (relabel f g) h) ->
+  dgeq_cov (dcanon_nauty g) (dcanon_nauty h) /\
+  digest (dserialise (dcanon_nauty g)) = digest (dserialise (dcanon_nauty h)).
+Proof. exact dsignature_invariant_nauty. Qed.
+Print Assumptions C08_digraph_nauty_invariant.
+
+(** value objects on digraphs (SynGraph / CanonicalGraph compare this digest): equal exactly for isomorphic digraphs *)
+Theorem C08_digraph_signature_exact_nauty : forall (D : Type) (digest : str -> D) (g h : graph),
+  dwf g -> dwf h -> els_ok g -> els_ok h ->
+  (digest (dser_nauty g) = digest (dser_nauty h) -> dser_nauty g = dser_nauty h) ->
+  (digest (dser_nauty g) = digest (dser_nauty h) <-> (exists f, inj_on f (node_ids g) /\ dgeq_cov (relabel f g) h)).
+Proof. exact dsignature_exact_nauty. Qed.
+Print Assumptions C08_digraph_signature_exact_nauty.
+
+(** 14. canonical_form(max_depth = md) of the exact back-end (model [canon_md]: None = RuntimeError, else (perm, early_stop);
+        compared with the implementation for md = 0, 1, 2 and the number of nodes on every run).
+        Exact: with md >= number of nodes the depth guard never fires - the result is the unbounded search's permutation and
+        early_stop = False.  Faithful: whatever md, a returned permutation is a leaf of the search tree, so the returned graph
+        is the input relabelled by a map injective on its nodes onto 1..N (not necessarily the canonical one). *)
+Theorem C08_nauty_max_depth_exact : forall (md : nat) (g : graph), length (gnodes g) <= md -> NoDup (node_ids g) ->
+  canon_md md g = Some (nauty_perm g, false).
+Proof. exact canon_md_exact. Qed.
+Print Assumptions C08_nauty_max_depth_exact.
+
+Theorem C08_nauty_max_depth_faithful : forall (md : nat) (g : graph) (p : list N) (b : bool), NoDup (node_ids g) ->
+  canon_md md g = Some (p, b) ->
+  (exists f, inj_on f (node_ids g) /\ Permutation (gnodes (relabel (apply_map (mapping_of p)) g)) (gnodes (relabel f g))
+             /\ gedges (relabel (apply_map (mapping_of p)) g) = gedges (relabel f g)) /\
+  Permutation (node_ids (relabel (apply_map (mapping_of p)) g)) (map N.of_nat (seq 1 (length (gnodes g)))).
+Proof. exact canon_md_faithful. Qed.
+Print Assumptions C08_nauty_max_depth_faithful.
+
+(** 15. Directed inputs, fixed point and wrappers: canonicalising a canonical digraph with the exact back-end changes nothing on
+        the covered attributes (so CanonicalGraph's hash = SynGraph's signature on DiGraphs too); CanonicalGraph wrappers of
+        DiGraphs are equal exactly for isomorphic digraphs; the digest-free verdicts the correspondence evaluates on every
+        digraph case ([drun_vo]): exact back-end <=> isomorphic as digraphs, attribute-sort back-end => isomorphic as digraphs. *)
+Theorem C08_digraph_nauty_idempotent : forall g : graph, dwf g -> els_ok g ->
+  dgeq_cov (dcanon_nauty g) (dcanon_nauty (dcanon_nauty g)) /\
+  dserialise (dcanon_nauty (dcanon_nauty g)) = dserialise (dcanon_nauty g).
+Proof. exact dnauty_idempotent. Qed.
+Print Assumptions C08_digraph_nauty_idempotent.
+
+Theorem C08_digraph_value_objects_canonicalgraph : forall (D : Type) (digest : str -> D) (g h : graph),
+  dwf g -> dwf h -> els_ok g -> els_ok h ->
+  (digest (dser_nauty (dcanon_nauty g)) = digest (dser_nauty (dcanon_nauty h)) ->
+   dser_nauty (dcanon_nauty g) = dser_nauty (dcanon_nauty h)) ->
+  (digest (dser_nauty (dcanon_nauty g)) = digest (dser_nauty (dcanon_nauty h)) <->
+   (exists f, inj_on f (node_ids g) /\ dgeq_cov (relabel f g) h)).
+Proof. exact dcangraph_nauty. Qed.
+Print Assumptions C08_digraph_value_objects_canonicalgraph.
+
+Theorem C08_digraph_value_objects_model_verdicts : forall g h : graph, dwf g -> dwf h -> els_ok g -> els_ok h ->
+  (syngraph_eqb dser_nauty g h = true <-> diso_cov g h) /\
+  (cangraph_eqb dcanon_nauty dser_nauty g h = true <-> diso_cov g h) /\
+  (syngraph_eqb dser_generic g h = true -> diso_cov g h) /\
+  (cangraph_eqb canon_generic dser_generic g h = true -> diso_cov g h).
+Proof. exact dvo_model_verdicts. Qed.
+Print Assumptions C08_digraph_value_objects_model_verdicts.
